@@ -36,6 +36,9 @@ func init() {
 						}
 					}
 				}
+				// lean variant (no calls in flight at the fault; one untagged call issued while the
+				// client hands over to the new connection), one level deeper
+				ps = append(ps, Param{Name: "fin-idle-lean-handover", Bound: 2, V: map[string]int{"rc": 1, "em": 1, "lean": 1}, S: map[string]string{"kind": "fin", "pos": "idle", "second": "none"}})
 				add("fin", "idle", 3, "none", 1, 0, 0, 1, 0)
 				add("rst", "idle", 1, "again", 1, 1, 1, 0, 1)
 				add("fin", "mid", 0, "again", 1, 0, 0, 0, 1)
@@ -62,6 +65,9 @@ func init() {
 					}
 					add(kind, pos, 0, "none", 0, 1, 0, 0, 2)
 					add(kind, pos, 0, "none", 0, 0, 0, 0, 2)
+				}
+				for _, em := range []int{0, 1} {
+					ps = append(ps, Param{Name: fmt.Sprintf("%s-idle-lean-handover-em%d", kind, em), Bound: 3, V: map[string]int{"rc": 1, "em": em, "lean": 1}, S: map[string]string{"kind": kind, "pos": "idle", "second": "none"}})
 				}
 			}
 			return ps
@@ -142,17 +148,22 @@ func reconBody(s *vsched.Sched, p Param) {
 		case "complete-3": // the trigger call of the mid-frame variant returns at once
 			return true
 		case "cut-go":
+			if p.I("lean") == 1 {
+				return true
+			}
 			return has("iss-U") && has("iss-R") && srv.Count(tokU) > 0 && srv.Count(tokR) > 0
 		case "r2-go":
 			return faulted() && okDials() == 1
 		case "p-go":
 			return pAllowed
+		case "v-go": // the redial has just succeeded: the client is about to swap the new connection in
+			return faulted() && okDials() >= 2
 		}
 		return true
 	}
 	s.OnQuiesce = func() bool {
 		allBack := has("ret-P")
-		for _, k := range []string{"U", "R", "R2"} {
+		for _, k := range []string{"U", "R", "R2", "V"} {
 			if has("iss-"+k) && !has("ret-"+k) {
 				allBack = false // e.g. a retry-tagged call sleeping on its retry timer
 			}
@@ -174,10 +185,13 @@ func reconBody(s *vsched.Sched, p Param) {
 			return
 		}
 		get := func(k string) string { v, _ := obs.Get(k); return v }
-		for _, k := range []string{"U", "R", "R2", "P"} {
+		for _, k := range []string{"U", "R", "R2", "P", "V"} {
 			if has("iss-"+k) && !has("ret-"+k) {
 				s.Violate("C05: call %s never returned; alive: %s", k, strings.Join(s.Alive(), " "))
 			}
+		}
+		if v := get("ret-V"); has("ret-V") && v != "61/<nil>" && !strings.HasSuffix(v, "/JSONRPCError(-1111111)") && !strings.HasSuffix(v, "/RPCConnectionError") {
+			s.Violate("C05: untagged call V issued while the reconnect completes returned %s, want its result or the connection error", v)
 		}
 		connErr := "JSONRPCError(-1111111)"
 		if mapped {
@@ -224,18 +238,29 @@ func reconBody(s *vsched.Sched, p Param) {
 		obs.Set("ret-"+name, "%d/%s", v, errClass(err))
 	}
 	s.Begin()
-	s.Go("caller-u", func() { call("U", tokU, false) })
-	s.Go("caller-r", func() { call("R", tokR, true) })
+	lean := p.I("lean") == 1
+	if !lean {
+		s.Go("caller-u", func() { call("U", tokU, false) })
+		s.Go("caller-r", func() { call("R", tokR, true) })
+	}
 	if p.Str("pos") == "idle" {
 		s.Go("zcut", func() {
 			s.Env("cut-go")
 			w.Net.Link(0).Sever(kind)
 		})
 	}
-	if reconnect {
+	if reconnect && !lean {
 		s.Go("zr2", func() {
 			s.Env("r2-go")
 			call("R2", tokR2, true)
+		})
+	}
+	if reconnect {
+		// an untagged call issued at the moment the redial succeeds (one deviation places it
+		// anywhere inside the hand-over to the new connection)
+		s.Go("zv", func() {
+			s.Env("v-go")
+			call("V", 61, false)
 		})
 	}
 	s.Go("zzprobe", func() {
